@@ -42,7 +42,8 @@ type c11Caller struct {
 type c11Cfg struct {
 	calls      []c11Call
 	cause      string
-	concurrent bool // the cause is applied by a separate task racing with the call instead of after settling
+	concurrent bool   // the cause is applied by a separate task racing with the call instead of after settling
+	link       string // "": healthy; "stalled": after CONNACK the peer stops reading, every Write blocks; "write-fails": after CONNACK every Write fails while the read side stays open and silent
 	bound      vrt.Budget
 }
 
@@ -93,6 +94,12 @@ func c11Body(cfg c11Cfg, outNet **env.Net) func() {
 				vrt.Failf("harness", "connect: %v", err)
 				return
 			}
+		}
+		switch cfg.link {
+		case "stalled":
+			s.Conn.Stalled = true
+		case "write-fails":
+			s.Conn.FailWrites = true
 		}
 		doneSeen := false
 		if !hasConnect {
@@ -243,6 +250,18 @@ func runC11(c *Ctx) {
 			if !strings.HasSuffix(cause, "-before") {
 				run(fmt.Sprintf("C11/racing/%s.%d/%s", cl.name, cl.step, cause), c11Cfg{calls: []c11Call{cl}, cause: cause, concurrent: true, bound: vrt.Budget{P: pc, S: 1, T: 1}})
 			}
+		}
+	}
+	// a link that no longer takes writes: the call is stuck inside (or fails in) Transport.Write, and a
+	// local Close is what the application has left to end the connection
+	c.Bound("bad-link", "every call (first step) on a link whose peer stopped reading (Write blocks) or whose writes fail while reads stay silent, ended by a local Close, applied after the call settled and by a racing task; P<=1")
+	for _, cl := range calls {
+		if cl.name == "connect" || cl.step > 0 {
+			continue
+		}
+		for _, link := range []string{"stalled", "write-fails"} {
+			run(fmt.Sprintf("C11/bad-link/%s/%s/local-close", link, cl.name), c11Cfg{calls: []c11Call{cl}, cause: "local-close", link: link, bound: vrt.Budget{P: 1, S: 1}})
+			run(fmt.Sprintf("C11/bad-link/%s/%s/local-close-racing", link, cl.name), c11Cfg{calls: []c11Call{cl}, cause: "local-close", link: link, concurrent: true, bound: vrt.Budget{P: 1, S: 1}})
 		}
 	}
 	for i, a := range calls {
